@@ -118,6 +118,8 @@ type Task struct {
 	// but leave the value for the task to receive itself
 	selPeekOnly bool
 
+	roEpoch    uint64 // write epoch at the task's latest step
+	roSteps    int    // consecutive own steps during which nothing in the system was written
 	goschedSeq uint64
 	yielding   bool   // called Gosched and not every other runnable task has stepped since
 	lastStep   uint64 // Seq of the task's latest step
@@ -555,6 +557,18 @@ func (s *Sim) step(kind OpKind, addr uintptr, gosched bool) {
 		s.parkForever(t)
 		return
 	}
+	// a task that keeps reading while nobody writes and nobody else can run
+	// will read the same things for ever (a retry loop without Gosched)
+	if t.roEpoch != s.WriteEpoch {
+		t.roEpoch, t.roSteps = s.WriteEpoch, 0
+	} else {
+		t.roSteps++
+		if t.roSteps > 200000 && t.OpSteps > 200000 && s.aloneRunnable(t) && s.resumeStalled() == nil {
+			s.endRun(OutLivelock, s.describe("livelock: one task has taken 200000 steps inside one call without any write in the system and nobody else can run"))
+			s.parkForever(t)
+			return
+		}
+	}
 	if gosched {
 		t.Gosched++
 		t.OpSpins++
@@ -599,6 +613,19 @@ func (s *Sim) step(kind OpKind, addr uintptr, gosched bool) {
 	if next != t {
 		s.switchTo(t, next)
 	}
+}
+
+//go:norace
+func (s *Sim) aloneRunnable(t *Task) bool {
+	for _, u := range s.tasks {
+		if u != t && u.state == stRunnable {
+			return false
+		}
+		if u.state == stBlocked && u.bk == bkSleep {
+			return false
+		}
+	}
+	return true
 }
 
 // allSpinning: every runnable task has been spinning for SpinLimit iterations
